@@ -10,6 +10,7 @@ import (
 
 	"github.com/bytedance/sonic"
 	"github.com/bytedance/sonic/internal/decoder/jitdec"
+	"github.com/bytedance/sonic/internal/decoder/optdec"
 	"github.com/bytedance/sonic/internal/encoder/vars"
 	"github.com/bytedance/sonic/internal/simrt"
 	"github.com/bytedance/sonic/option"
@@ -121,6 +122,7 @@ func runC09(c *Ctx) Result {
 	z := &zoo{g: g, cb: t.Draw(simrt.Knobs, 3) == 0, maxDep: 2 + g.d(2)}
 	capD, capE := c08Caps[t.Draw(simrt.Knobs, len(c08Caps))], c08Caps[t.Draw(simrt.Knobs, len(c08Caps))]
 	jitdec.SimResetCache(capD)
+	optdec.SimResetCache(capD)
 	vars.SimResetCache(capE)
 	simrt.PoolTape = t
 	simrt.OrderTape = t
@@ -257,6 +259,7 @@ func runC09(c *Ctx) Result {
 	simrt.PoolTape, simrt.OrderTape = nil, nil
 	simrt.ResetPools()
 	jitdec.SimResetCache(4096)
+	optdec.SimResetCache(4096)
 	vars.SimResetCache(4096)
 	alone := c09Do(types, o)
 	if c08Same(alone, s.ref, false) {
